@@ -656,8 +656,10 @@ pub fn gen_project(rng: &mut Rng) -> Project {
             let n = g.fresh_root();
             globals.push(VarD { name: n, ty: Ty::Int, init: g.rng.range(0, 9) });
         }
-        let mut taken = BTreeSet::new();
-        let prefer = all_root_names.clone();
+        // task and program-instance names: unique in the configuration and different from every global-scope
+        // name (the runtime keeps program instances in its global table: recorded finding C16-inst-clash)
+        let mut taken: BTreeSet<String> = g.used_root.clone();
+        let prefer: Vec<String> = Vec::new();
         let task = g.local_name(&mut taken, &prefer);
         let mut insts = Vec::new();
         for it in items.iter().filter(|i| i.file == file) {
